@@ -72,7 +72,7 @@ type evidence struct {
 
 // standing assumptions reported with every evidence file (DESIGN section 3)
 var standingAssumptions = []string{
-	"A-INT: Go integers are treated as mathematical integers (no wrap-around)",
+	"A-INT: Go integers are mathematical integers in the logic; every +,-,* executed by a verified function carries a no-overflow obligation (64-bit ranges), values entering a function are assumed in their type's range, lengths are assumed <= 2^56",
 	"A-APPEND: append is modelled as returning a fresh backing array (no two live headers of different length share an appended-to array)",
 	"A-SEQ: outside the two fork sites the container runs single-threaded",
 	"A-CALLBACK: user implementations of container interfaces satisfy the interface-level contracts in */zz_contracts_verif.go",
